@@ -141,7 +141,11 @@ func genTimeline(t *rapid.T) TLCase {
 	T := 0
 	// "requery": a query immediately followed by a burst of failures (the shape that re-bans an address whose
 	// expired record has just been seen by IsBanned)
-	ops := []string{"fail", "fail", "fail", "fail", "fail", "fail", "query", "query", "query", "query", "requery", "requery", "success", "ban", "unban"}
+	ops := []string{"fail", "fail", "fail", "fail", "fail", "fail", "query", "query", "query", "query", "requery", "requery", "success", "ban", "unban",
+		// "banned-success": a burst that reaches the threshold, then a success recorded while the ban runs (a handshake
+		// that had passed the gate before the ban landed), then a query inside the ban period: success clears the
+		// failure history but never lifts a running ban
+		"banned-success", "banned-success"}
 	if c.Cfg.M >= 2 && rapid.IntRange(0, 2).Draw(t, "straddle") == 0 {
 		// directed: failures that straddle the age of the FIRST failure. One early failure, more at 0.65 W, more at
 		// 1.18 W: the first has left the window, the middle ones have not, so the last burst reaches the threshold only
@@ -185,6 +189,12 @@ func genTimeline(t *rapid.T) TLCase {
 			c.Steps = append(c.Steps, s)
 			s = TLStep{Op: "fail", IP: s.IP, AtMs: T}
 		}
+		if s.Op == "banned-success" {
+			c.Steps = append(c.Steps, TLStep{Op: "fail", IP: s.IP, AtMs: T, N: c.Cfg.M}, TLStep{Op: "success", IP: s.IP, AtMs: T})
+			bounds[s.IP] = append(bounds[s.IP], T+c.Cfg.WMs, T+c.Cfg.BanMs)
+			T += rapid.SampledFrom([]int{0, 10, 45, 100}).Draw(t, "insideBan")
+			s = TLStep{Op: "query", IP: s.IP, AtMs: T}
+		}
 		switch s.Op {
 		case "fail":
 			s.N = rapid.SampledFrom([]int{1, 1, 2, c.Cfg.M, c.Cfg.M}).Draw(t, "n")
@@ -223,12 +233,16 @@ func runTimeline(t vkit.TB, c TLCase) {
 		models[i] = newIPModel(c.Cfg.model(), notes)
 	}
 	checked, skipped := 0, 0
+	successWhileBanned := map[int]bool{}
 	start := time.Now()
 	now := func() time.Duration { return time.Since(start) }
 	var trace []string
 	for si, s := range c.Steps {
 		sleepUntil(start, s.AtMs)
 		ip, m := tlIPs[s.IP], models[s.IP]
+		if s.Op == "fail" || s.Op == "ban" || s.Op == "unban" {
+			delete(successWhileBanned, s.IP) // the ban record is rewritten / removed: later queries judge something else
+		}
 		switch s.Op {
 		case "fail":
 			n := s.N
@@ -243,6 +257,11 @@ func runTimeline(t vkit.TB, c TLCase) {
 				trace = append(trace, fmt.Sprintf("%d:fail ip%d [%v,%v]", si, s.IP, b.Round(time.Microsecond), a.Round(time.Microsecond)))
 			}
 		case "success":
+			at := now()
+			if m.undetermined == "" && m.banLive(ival{at, at}) == Yes {
+				notes["success-recorded-while-banned"]++
+				successWhileBanned[s.IP] = true
+			}
 			p.RecordSuccess(ip)
 			m.success()
 			trace = append(trace, fmt.Sprintf("%d:success ip%d @%v", si, s.IP, now().Round(time.Microsecond)))
@@ -280,6 +299,9 @@ func runTimeline(t vkit.TB, c TLCase) {
 				return
 			}
 			if want == Yes {
+				if successWhileBanned[s.IP] {
+					notes["query-banned-after-success-recorded-while-banned"]++
+				}
 				notes["query-banned"]++
 			} else {
 				notes["query-not-banned"]++
